@@ -255,6 +255,7 @@ def main(argv=None) -> int:
     ap.add_argument('--scale', type=float, default=float(os.environ.get('VERIF_SCALE', '1.0')))
     ap.add_argument('--scenario', default=None)
     ap.add_argument('--no-evidence', action='store_true')
+    ap.add_argument('--no-shrink', action='store_true', help='report violations without minimising them (used when evaluating seeded changes)')
     ap.add_argument('--selfcheck', action='store_true')
     args = ap.parse_args(argv)
 
@@ -334,7 +335,7 @@ def main(argv=None) -> int:
             lines.append(f'KNOWN-FINDING: property={prop} {sig} :: {open_sigs[sig].get("what", "")} (runs={total["viol_counts"][sig]}, replay={path})')
             continue
         new_violations += 1
-        small = shrink(mod, normalise(case), sig)
+        small = normalise(case) if args.no_shrink else shrink(mod, normalise(case), sig)
         r = run_case(mod, small)
         msg2 = dict(r['violations']).get(sig, msg)
         path = write_replay(prop, sig, small, msg2, r.get('digest'), rev)
